@@ -43,11 +43,26 @@ def rates_py(c, G, idx, status):
     return out
 
 
+def maybe_lazy(ctx, c):
+    """1 case in 4: family 'lazy' (C15 only; its null events are not 'one node making one move', so the generic
+    C04/C09/C10 streams do not use it): the chooser answers the node's current status unless >= k neighbours are I"""
+    if ctx.rng.random() < 0.25:
+        c["family"] = "lazy"
+        c["k"] = ctx.rng.choice([1, 2, 2, 3])
+        sts = ["S", "I", "R"]
+        c["statuses"] = sts
+        c["IC"] = [ctx.rng.choice(["S", "S", "I"]) for _ in range(c["n"])]
+        c["return_statuses"] = sts if ctx.rng.random() < 0.7 else sts[: ctx.rng.randint(1, 3)]
+        if F(c["tau"]) == 0:
+            c["tau"] = "1/2"
+    return c
+
+
 def correspondence(ctx, drv):
     import EoN.simulation as sim
     reqs, metas = [], []
     for _ in range(ctx.scale(800, 4000)):
-        c = allsims.gen_case(ctx.rng, "Gillespie_complex_contagion")
+        c = maybe_lazy(ctx, allsims.gen_case(ctx.rng, "Gillespie_complex_contagion"))
         if ctx.rng.random() < 0.3:
             c["tmax"] = str(F(c["tmin"]) + 50)
         G, lab = sims.build_graph(c)
@@ -111,7 +126,7 @@ def one_step_law(ctx):
     """exact first-event law of the real code on small graphs vs rate/sum(rates)"""
     import EoN, EoN.simulation as sim
     for _ in range(ctx.scale(120, 800)):
-        c = allsims.gen_case(ctx.rng, "Gillespie_complex_contagion", nmax=4)
+        c = maybe_lazy(ctx, allsims.gen_case(ctx.rng, "Gillespie_complex_contagion", nmax=4))
         c["tmin"], c["tmax"] = "0", "3/2"
         G, lab = sims.build_graph(c)
         idx = gen.index_of(G)
@@ -119,6 +134,7 @@ def one_step_law(ctx):
         for i, s in enumerate(c["IC"]):
             status0[idx[lab(i)]] = s
         rates = rates_py(c, G, idx, status0)
+        lab_of = {idx[u]: u for u in G}
         tot = sum(rates)
         if tot == 0:
             continue
@@ -181,7 +197,10 @@ def one_step_law(ctx):
         for v in range(c["n"]):
             if rates[v] > 0:
                 st = list(status0)
-                st[v] = "I" if st[v] == "S" else ("S" if c["family"] == "sis" else "R")
+                if c["family"] == "lazy" and st[v] == "S" and sum(1 for w in G.neighbors(lab_of[v]) if status0[idx[w]] == "I") < c["k"]:
+                    pass                                      # null event
+                else:
+                    st[v] = "I" if st[v] == "S" else ("S" if c["family"] == "sis" else "R")
                 spec["".join(st)] = spec.get("".join(st), F(0)) + rates[v] / tot
         ctx.case(rep, nontrivial=len(spec) > 1)
         ctx.count("law-states")
